@@ -107,6 +107,8 @@ class Context:
     def rat(self, v):
         if isinstance(v, Rat):
             return v
+        if isinstance(v, bool) or not isinstance(v, (int, float, Fraction)):
+            raise AlgError("non-numeric value %r" % (v,))
         return Rat.const(self, v)
 
     def _f_sqrt(self, u):
